@@ -75,12 +75,10 @@ Utf8(cp) ==
   ELSE <<240 + (cp \div 262144), 128 + ((cp \div 4096) % 64), 128 + ((cp \div 64) % 64), 128 + (cp % 64)>>
 \* the code point a numeric reference stands for: 0, surrogates and values beyond U+10FFFF are U+FFFD (section 6.2)
 NumericCP(v) == IF v = 0 \/ v > 1114111 \/ (v >= 55296 /\ v <= 57343) THEN 65533 ELSE v
-\* the names of Inline.tla's entity table with their code points (from the normative HTML5 list)
-NamedCP(name) ==
-  CASE name = <<97, 109, 112>> -> 38 [] name = <<108, 116>> -> 60 [] name = <<103, 116>> -> 62 [] name = <<113, 117, 111, 116>> -> 34
-    [] name = <<99, 111, 112, 121>> -> 169 [] name = <<120, 109, 97, 112>> -> 10236 [] name = <<97, 112>> -> 8776 [] name = <<109, 97, 112>> -> 8614
-    [] name = <<109, 97, 108, 116>> -> 10016 [] name = <<109, 112>> -> 8723 [] name = <<112, 109>> -> 177 [] name = <<71, 97, 109, 109, 97>> -> 915
-    [] name = <<71, 116>> -> 8811 [] name = <<108, 97, 112>> -> 10885 [] name = <<108, 97, 116>> -> 10923 [] name = <<108, 108>> -> 8810
+\* the code points (one or two) a named reference stands for: the complete HTML5 table (Entities.tla)
+NamedCPs(name) == I!Ent!EntityCP[name]
+RECURSIVE Utf8Seq(_)
+Utf8Seq(cps) == IF cps = <<>> THEN <<>> ELSE Utf8(Head(cps)) \o Utf8Seq(Tail(cps))
 HexVal(b) == IF b >= 48 /\ b <= 57 THEN b - 48 ELSE IF b >= 97 THEN b - 87 ELSE b - 55
 RECURSIVE NumVal(_, _, _)
 NumVal(s, base, acc) == IF s = <<>> THEN acc ELSE NumVal(Tail(s), base, acc * base + HexVal(Head(s)))
@@ -89,7 +87,7 @@ DecodeRef(s, p, e) ==
   IF s[p + 1] = HASHC THEN
        (IF s[p + 2] \in {120, 88} THEN Utf8(NumericCP(NumVal(SubSeq(s, p + 3, e - 2), 16, 0)))
         ELSE Utf8(NumericCP(NumVal(SubSeq(s, p + 2, e - 2), 10, 0))))
-  ELSE Utf8(NamedCP(SubSeq(s, p + 1, e - 2)))
+  ELSE Utf8Seq(NamedCPs(SubSeq(s, p + 1, e - 2)))
 \* text of a destination / title / info string: backslash escapes and character references resolved
 RECURSIVE Unescape(_, _)
 Unescape(s, i) ==
